@@ -257,6 +257,12 @@ class Gen:
                     src += self.self_import(ind, in_class)
                 else:
                     src += ind + rng.choice([i for i in IMPORTS if not (in_class and "*" in i)]) + "\n"
+            elif r < 0.845:
+                # characters str.splitlines() breaks on but Python's line numbering does not: a form-feed line, and separators
+                # inside a comment or a string literal
+                odd = rng.choice(["\x0c", "\x0b", "\x1c", "\x1d", "\x1e", "\x85", "\u2028", "\u2029"])
+                # (a form-feed or comment line is no statement: it always comes with one, so that a block is never left empty)
+                src += rng.choice([f"{ind}\x0c\n", f"{ind}# note {odd} continued\n", ""]) + f"{ind}{self.name('v')} = 'a{odd}b'\n"
             elif r < 0.94 and wdepth < 2:
                 src += self.wrapper(ind, depth, in_class, wdepth)
             elif not in_class and wdepth == 0:
